@@ -275,9 +275,9 @@ func (n *node) submit(o op) error {
 	ctx, cancel := context.WithTimeout(context.Background(), 60*time.Second)
 	defer cancel()
 	if o.pin {
-		return n.cc.LogPin(ctx, common.PinOf(o.tok))
+		return n.cc.LogPin(ctx, pinOf(o.tok))
 	}
-	return n.cc.LogUnpin(ctx, common.PinOf(o.tok))
+	return n.cc.LogUnpin(ctx, pinOf(o.tok))
 }
 
 // ackResult: ok = LogPin/LogUnpin returned nil and the FSM applied the entry (tracker call seen);
@@ -760,7 +760,7 @@ func genRaftCase(r *common.Rng, kind string, k int) (int, []op, []string) {
 	nops := r.Range(3, 12)
 	ops := genOps(r, nops, 3)
 	if k%5 == 4 { // known-finding stream: last op with origins
-		ops = append(ops, op{pin: true, tok: randPin(r, r.Intn(cidUniverse), 1, false)})
+		ops = append(ops, undecodableOp(r))
 		nops++
 	}
 	var ev []string
